@@ -295,7 +295,7 @@ def _run_one(case, ctx):
     m0 = recipes.fresh(case["recipe"])
     if adapters.is_leaf(m0):
         raise monitor.OutOfScope()
-    graph, top, info = common.domain(m0)
+    graph, top, info = common.domain(m0, recipe=case["recipe"])
     # flags on every node
     for nid, obj in info["objects"].items():
         if not adapters.is_leaf(obj):
